@@ -160,6 +160,47 @@ fn c07_sorter_equals_sort_and_merge() {
     assert!(spilled_runs > 0);
 }
 
+/// C17 stand-in (bounded): the in-memory buffer of a reallocating sorter starts small (128 KiB); an entry needing k = 1..7
+/// doublings at once must be stored intact, first thing or after a few small entries, and everything comes back out.
+#[test]
+fn c17_growth_by_repeated_doubling() {
+    let sizes: Vec<usize> = if tier_thorough() { vec![100_000, 131_072, 200_000, 262_145, 300_000, 524_289, 1_048_577, 3_000_001, 9_000_000, 17_000_000] } else { vec![200_000, 262_145, 300_000, 1_048_577, 5_000_003] };
+    let mut runs = 0;
+    for &sz in &sizes {
+        for pre in [0usize, 3, 400] {
+            for split in 0..3 {
+                // the big entry's bytes live in the key, in the value, or in both
+                let (klen, vlen) = match split { 0 => (3usize, sz), 1 => (sz.min(60_000), sz - sz.min(60_000) + 1), _ => (sz / 2, sz - sz / 2) };
+                let mut inserts: Vec<(Vec<u8>, Vec<u8>)> = (0..pre).map(|i| ((i as u32).to_be_bytes().to_vec(), token(i as u32))).collect();
+                let mut big_k = vec![0xEEu8; klen]; big_k[0] = 0xFF;
+                let big_v: Vec<u8> = (0..vlen).map(|i| (i % 253) as u8).collect();
+                inserts.push((big_k, big_v));
+                inserts.push((b"\xFF\xFFafter".to_vec(), token(7)));
+                let desc = format!("a fresh reallocating sorter (128 KiB initial buffer), {} small inserts, then one entry with a {}-byte key and a {}-byte value, then one small insert", pre, klen, vlen);
+                let ins2 = inserts.clone();
+                let r = std::panic::catch_unwind(move || {
+                    let mut s = Sorter::builder(Concat).chunk_creator(CursorVec).build();
+                    for (k, v) in &ins2 { s.insert(k, v).map_err(|e| e.to_string())?; }
+                    let mut out: Entries = vec![];
+                    let mut it = s.into_stream_merger_iter().map_err(|e| e.to_string())?;
+                    while let Some((k, v)) = it.next().map_err(|e| e.to_string())? { out.push((k.to_vec(), v.to_vec())); }
+                    Ok::<Entries, String>(out)
+                });
+                let got = match r {
+                    Err(p) => { let m = p.downcast_ref::<String>().cloned().or_else(|| p.downcast_ref::<&str>().map(|s| s.to_string())).unwrap_or_default();
+                        cex(format!("C17 panic while storing an entry that needs several buffer doublings: `{}` -- input: {}", m, desc)) }
+                    Ok(Err(e)) => cex(format!("C17 sorter failed: {} -- input: {}", e, desc)),
+                    Ok(Ok(g)) => g,
+                };
+                let mut want = inserts.clone(); want.sort();
+                if got != want { cex(format!("C17 entries read back differ from the inserted ones ({} vs {} entries; first difference at #{:?}) -- input: {}", got.len(), want.len(), got.iter().zip(want.iter()).position(|(a, b)| a != b), desc)); }
+                runs += 1;
+            }
+        }
+    }
+    stat("runs", runs);
+}
+
 /// chunk storage that counts live chunks and creations
 struct CountingChunks { live: Arc<AtomicIsize>, peak: Arc<AtomicIsize>, created: Arc<AtomicUsize>, fail_create_at: Option<usize> }
 struct CountedChunk { inner: Cursor<Vec<u8>>, live: Arc<AtomicIsize> }
